@@ -82,9 +82,11 @@ func constrainUnions(schema *jsonschema.Schema) {
 		}
 	}
 
-	// an entry of `passes` holds one transformation: the loader refuses several
-	if definition, found := schema.Definitions["YamlCompilerPass"]; found {
-		definition.MaxProperties = &one
+	// an entry of `passes`, `builders` or `options` holds one transformation: the loaders refuse several
+	for _, name := range []string{"YamlCompilerPass", "YamlBuilderRule", "YamlOptionRule"} {
+		if definition, found := schema.Definitions[name]; found {
+			definition.MaxProperties = &one
+		}
 	}
 
 	// a rule that carries its selector inline (`rename: {by_object: Panel, as: Row}`) needs
